@@ -553,6 +553,9 @@ func runC13(c *Ctx) {
 	// R10: the offset a work item carries is the offset its request was sent at (shared with C01.R2): the reducers
 	// compute counts and the final File offset from it
 	c.withRule("R10", func() { runC01R2(c) })
+	// R11: a STATUS answer to READ is a failure or EOF, never success (shared with C20.Z6): read as success it gives a
+	// short count — or, in the concurrent ReadAt, a full count over bytes that never arrived — with a nil error
+	c.withRule("R11", func() { checkStatusCaseNextToDataCase(c, "Z6") })
 
 	// R7: ReadFrom / ReadFromWithConcurrency leave the File offset at the end of the intact prefix
 	checkOffsetStores(c, "R7", map[string]bool{"(*File).ReadFrom": true, "(*File).readFromWithConcurrency": true})
